@@ -84,8 +84,17 @@ fn text_failure(f: Fmt, pipe: Pipe, text: &str, want: &str) -> Option<String> {
 }
 
 /// spacing described compactly for replays: per boundary the number of whitespace chars, and the char
+/// half of the spacing seeds write the value with the derived copulas (same meaning, other tokens)
+fn sugar_of(seed: u64) -> Sugar {
+    if seed % 2 == 1 {
+        Sugar { derived_copulas: true, retrospective: true, interval_pad: 0, placeholder_suffix: String::new(), coin: if seed % 4 == 1 { None } else { Some(seed | 1) } }
+    } else {
+        Sugar::default()
+    }
+}
+
 fn failure_with(f: Fmt, nd: &ND, spacing_kind: &str, seed: u64) -> Option<(Pipe, String, String)> {
-    let toks = tokens(f, nd, &mut Sugar::default());
+    let toks = tokens(f, nd, &mut sugar_of(seed));
     let want = nd.canon();
     let n = toks.len();
     let mut rng = Rng::new(seed);
@@ -137,7 +146,7 @@ fn failure_with(f: Fmt, nd: &ND, spacing_kind: &str, seed: u64) -> Option<(Pipe,
 
 /// lexical parser only: whitespace inserted anywhere, also inside tokens
 fn inside_failure(f: Fmt, nd: &ND, seed: u64) -> Option<(Pipe, String, String)> {
-    let toks = tokens(f, nd, &mut Sugar::default());
+    let toks = tokens(f, nd, &mut sugar_of(seed));
     let want = nd.canon();
     let mut rng = Rng::new(seed);
     let compact: Vec<char> = toks.concat().chars().collect();
@@ -189,49 +198,53 @@ fn check(ctx: &mut Ctx, f: Fmt, nd: &ND, kind: &str, seed: u64) {
 }
 
 /// literal macro invocations compiled into the harness (the macros strip whitespace before parsing)
-fn literal_macros() -> Vec<(&'static str, Narsese, &'static str)> {
+#[allow(clippy::type_complexity)]
+fn literal_macros() -> Vec<(&'static str, Box<dyn Fn() -> Narsese>, &'static str)> {
     use narsese::enum_nse as nse;
     vec![
-        ("<A --> B>", nse!(<A --> B>), "T<Inh(W\"A\",W\"B\")>"),
-        ("<A --> B>.", nse!(<A --> B>.), "S<Inh(W\"A\",W\"B\")|.|eternal|[]>"),
-        ("<A-->B>.", nse!("<A-->B>."), "S<Inh(W\"A\",W\"B\")|.|eternal|[]>"),
-        ("< A  -->  B > .", nse!("< A  -->  B > ."), "S<Inh(W\"A\",W\"B\")|.|eternal|[]>"),
-        ("(&&, A, B)", nse!((&&, A, B)), "T<Conj{W\"A\",W\"B\"}>"),
-        ("(&&,A,B)", nse!("(&&,A,B)"), "T<Conj{W\"A\",W\"B\"}>"),
-        ("( && , A , B )", nse!("( && , A , B )"), "T<Conj{W\"A\",W\"B\"}>"),
-        ("{A, B}", nse!({A, B}), "T<SetExt{W\"A\",W\"B\"}>"),
-        ("[A]", nse!([A]), "T<SetInt{W\"A\"}>"),
-        ("(--, A)", nse!((--, A)), "T<Neg(W\"A\")>"),
-        ("(/, R, _, B)", nse!((/, R, _, B)), "T<ImgExt@1(W\"R\",W\"B\")>"),
-        ("(*, A, B, C)", nse!((*, A, B, C)), "T<Prod(W\"A\",W\"B\",W\"C\")>"),
-        ("<A <-> B>?", nse!(<A <-> B>?), "S<Sim(W\"A\",W\"B\")|?|eternal|[]>"),
-        ("<A ==> B>!", nse!(<A ==> B>!), "S<Impl(W\"A\",W\"B\")|!|eternal|[]>"),
-        ("<A <=> B>@", nse!(<A <=> B>@), "S<Equiv(W\"A\",W\"B\")|@|eternal|[]>"),
-        ("<bird --] flying>", nse!("<bird --] flying>"), "T<Inh(W\"bird\",SetInt{W\"flying\"})>"),
-        ("<tweety {-- bird>", nse!("<tweety {-- bird>"), "T<Inh(SetExt{W\"tweety\"},W\"bird\")>"),
-        ("<tweety {-] yellow>", nse!("<tweety {-] yellow>"), "T<Inh(SetExt{W\"tweety\"},SetInt{W\"yellow\"})>"),
-        ("<A =/> B>", nse!(<A =/> B>), "T<ImplPred(W\"A\",W\"B\")>"),
-        ("<A =|> B>", nse!(<A =|> B>), "T<ImplConc(W\"A\",W\"B\")>"),
-        ("<A </> B>", nse!(<A </> B>), "T<EquivPred(W\"A\",W\"B\")>"),
-        ("<A <|> B>", nse!(<A <|> B>), "T<EquivConc(W\"A\",W\"B\")>"),
-        ("<go-to --> op>.", nse!("<go-to --> op>."), "S<Inh(W\"go-to\",W\"op\")|.|eternal|[]>"),
-        ("<A --> B>. :|:", nse!("<A --> B>. :|:"), "S<Inh(W\"A\",W\"B\")|.|present|[]>"),
-        ("<A --> B>. :!-5:", nse!("<A --> B>. :!-5:"), "S<Inh(W\"A\",W\"B\")|.|fixed-5|[]>"),
-        ("<A --> B>. : ! 5 :", nse!("<A --> B>. : ! 5 :"), "S<Inh(W\"A\",W\"B\")|.|fixed5|[]>"),
-        ("$0.5; 0.5; 0.5$ <A --> B>. %1.0; 0.9%", nse!("$0.5; 0.5; 0.5$ <A --> B>. %1.0; 0.9%"), "K<S<Inh(W\"A\",W\"B\")|.|eternal|[3ff0000000000000,3feccccccccccccd]>|[3fe0000000000000,3fe0000000000000,3fe0000000000000]>"),
-        ("$$ A.", nse!("$$ A."), "K<S<W\"A\"|.|eternal|[]>|[]>"),
-        ("(&/, <A --> B>, +5, <C --> D>)", nse!("(&/, <A --> B>, +5, <C --> D>)"), "T<Seq(Inh(W\"A\",W\"B\"),+5,Inh(W\"C\",W\"D\"))>"),
-        ("<(*, $x, #y) --> ^op>", nse!("<(*, $x, #y) --> ^op>"), "T<Inh(Prod($\"x\",#\"y\"),^\"op\")>"),
+        ("<A --> B>", Box::new(|| nse!(<A --> B>)), "T<Inh(W\"A\",W\"B\")>"),
+        ("<A --> B>.", Box::new(|| nse!(<A --> B>.)), "S<Inh(W\"A\",W\"B\")|.|eternal|[]>"),
+        ("<A-->B>.", Box::new(|| nse!("<A-->B>.")), "S<Inh(W\"A\",W\"B\")|.|eternal|[]>"),
+        ("< A  -->  B > .", Box::new(|| nse!("< A  -->  B > .")), "S<Inh(W\"A\",W\"B\")|.|eternal|[]>"),
+        ("(&&, A, B)", Box::new(|| nse!((&&, A, B))), "T<Conj{W\"A\",W\"B\"}>"),
+        ("(&&,A,B)", Box::new(|| nse!("(&&,A,B)")), "T<Conj{W\"A\",W\"B\"}>"),
+        ("( && , A , B )", Box::new(|| nse!("( && , A , B )")), "T<Conj{W\"A\",W\"B\"}>"),
+        ("{A, B}", Box::new(|| nse!({A, B})), "T<SetExt{W\"A\",W\"B\"}>"),
+        ("[A]", Box::new(|| nse!([A])), "T<SetInt{W\"A\"}>"),
+        ("(--, A)", Box::new(|| nse!((--, A))), "T<Neg(W\"A\")>"),
+        ("(/, R, _, B)", Box::new(|| nse!((/, R, _, B))), "T<ImgExt@1(W\"R\",W\"B\")>"),
+        ("(*, A, B, C)", Box::new(|| nse!((*, A, B, C))), "T<Prod(W\"A\",W\"B\",W\"C\")>"),
+        ("<A <-> B>?", Box::new(|| nse!(<A <-> B>?)), "S<Sim(W\"A\",W\"B\")|?|eternal|[]>"),
+        ("<A ==> B>!", Box::new(|| nse!(<A ==> B>!)), "S<Impl(W\"A\",W\"B\")|!|eternal|[]>"),
+        ("<A <=> B>@", Box::new(|| nse!(<A <=> B>@)), "S<Equiv(W\"A\",W\"B\")|@|eternal|[]>"),
+        ("<bird --] flying>", Box::new(|| nse!("<bird --] flying>")), "T<Inh(W\"bird\",SetInt{W\"flying\"})>"),
+        ("<tweety {-- bird>", Box::new(|| nse!("<tweety {-- bird>")), "T<Inh(SetExt{W\"tweety\"},W\"bird\")>"),
+        ("<tweety {-] yellow>", Box::new(|| nse!("<tweety {-] yellow>")), "T<Inh(SetExt{W\"tweety\"},SetInt{W\"yellow\"})>"),
+        ("<A =/> B>", Box::new(|| nse!(<A =/> B>)), "T<ImplPred(W\"A\",W\"B\")>"),
+        ("<A =|> B>", Box::new(|| nse!(<A =|> B>)), "T<ImplConc(W\"A\",W\"B\")>"),
+        ("<A </> B>", Box::new(|| nse!(<A </> B>)), "T<EquivPred(W\"A\",W\"B\")>"),
+        ("<A <|> B>", Box::new(|| nse!(<A <|> B>)), "T<EquivConc(W\"A\",W\"B\")>"),
+        ("<go-to --> op>.", Box::new(|| nse!("<go-to --> op>.")), "S<Inh(W\"go-to\",W\"op\")|.|eternal|[]>"),
+        ("<A --> B>. :|:", Box::new(|| nse!("<A --> B>. :|:")), "S<Inh(W\"A\",W\"B\")|.|present|[]>"),
+        ("<A --> B>. :!-5:", Box::new(|| nse!("<A --> B>. :!-5:")), "S<Inh(W\"A\",W\"B\")|.|fixed-5|[]>"),
+        ("<A --> B>. : ! 5 :", Box::new(|| nse!("<A --> B>. : ! 5 :")), "S<Inh(W\"A\",W\"B\")|.|fixed5|[]>"),
+        ("$0.5; 0.5; 0.5$ <A --> B>. %1.0; 0.9%", Box::new(|| nse!("$0.5; 0.5; 0.5$ <A --> B>. %1.0; 0.9%")), "K<S<Inh(W\"A\",W\"B\")|.|eternal|[3ff0000000000000,3feccccccccccccd]>|[3fe0000000000000,3fe0000000000000,3fe0000000000000]>"),
+        ("$$ A.", Box::new(|| nse!("$$ A.")), "K<S<W\"A\"|.|eternal|[]>|[]>"),
+        ("(&/, <A --> B>, +5, <C --> D>)", Box::new(|| nse!("(&/, <A --> B>, +5, <C --> D>)")), "T<Seq(Inh(W\"A\",W\"B\"),+5,Inh(W\"C\",W\"D\"))>"),
+        ("<(*, $x, #y) --> ^op>", Box::new(|| nse!("<(*, $x, #y) --> ^op>")), "T<Inh(Prod($\"x\",#\"y\"),^\"op\")>"),
     ]
 }
 
 pub fn run(ctx: &mut Ctx) {
     // literal macro invocations (shard 0 only; fixed)
     if ctx.shard == 0 {
-        for (src, got, want) in literal_macros() {
+        for (src, thunk, want) in literal_macros() {
             ctx.report.eval();
             ctx.report.bump("family.literal-macro-invocations");
-            let c = canon_real_narsese(&got);
+            let c = match observe(|| canon_real_narsese(&thunk())) {
+                Obs::Ret(c) => c,
+                Obs::Panic(p) => format!("PANIC({})", p),
+            };
             if c != want {
                 ctx.report.violate(
                     format!("C09|literal-macro|{}", src),
@@ -256,6 +269,15 @@ pub fn run(ctx: &mut Ctx) {
         let base = base_atoms(&["A", "go-to"]);
         let mut items: Vec<TD> = base.clone();
         items.extend(universe_over(&base[..3], 2, false));
+        // shapes that can be written with the derived copulas (every atom kind next to the copula)
+        for a in &base {
+            for b in &base[..2] {
+                items.push(TD::bin(Kind::Inh, TD::comp(Kind::SetExt, vec![a.clone()]), b.clone()));
+                items.push(TD::bin(Kind::Inh, a.clone(), TD::comp(Kind::SetInt, vec![b.clone()])));
+                items.push(TD::bin(Kind::Inh, TD::comp(Kind::SetExt, vec![a.clone()]), TD::comp(Kind::SetInt, vec![b.clone()])));
+                items.push(TD::bin(Kind::EquivPred, a.clone(), b.clone()));
+            }
+        }
         for (i, t) in items.into_iter().enumerate() {
             idx += 1;
             if !ctx.mine(idx) {
@@ -264,18 +286,28 @@ pub fn run(ctx: &mut Ctx) {
             let nd = wrap_rotating(t, i);
             let n = tokens(f, &nd, &mut Sugar::default()).len();
             ctx.report.nontrivial(&format!("{}|{}", f.name(), nd.canon()));
-            for kind in ["none", "one-everywhere", "inner-one"] {
-                check(ctx, f, &nd, kind, 0);
-            }
-            if n + 1 <= 13 {
-                ctx.report.bump("values with all 2^boundaries spacings");
-                for bits in 0..(1u64 << (n + 1)) {
-                    check(ctx, f, &nd, &format!("bits:{}", bits), 0);
+            // seed 0 = plain copulas, seed 1 = derived copulas wherever the shape allows
+            let sugared_differs = tokens(f, &nd, &mut sugar_of(1)) != tokens(f, &nd, &mut sugar_of(0));
+            for seed in [0u64, 1] {
+                if seed == 1 && !sugared_differs {
+                    continue;
                 }
-            } else {
-                for _ in 0..16 {
-                    let bits = rng.next_u64();
-                    check(ctx, f, &nd, &format!("bits:{}", bits), 0);
+                if seed == 1 {
+                    ctx.report.bump("values also written with derived copulas");
+                }
+                for kind in ["none", "one-everywhere", "inner-one"] {
+                    check(ctx, f, &nd, kind, seed);
+                }
+                if n + 1 <= 13 {
+                    ctx.report.bump("values with all 2^boundaries spacings");
+                    for bits in 0..(1u64 << (n + 1)) {
+                        check(ctx, f, &nd, &format!("bits:{}", bits), seed);
+                    }
+                } else {
+                    for _ in 0..16 {
+                        let bits = rng.next_u64();
+                        check(ctx, f, &nd, &format!("bits:{}", bits), seed);
+                    }
                 }
             }
         }
@@ -291,7 +323,11 @@ pub fn run(ctx: &mut Ctx) {
         let names = safe_names(f);
         let g = Gen { names: &names, max_depth: 6, max_arity: 4, placeholders: true, set_bias: false };
         let d__ = 1 + rng.below(5);
-        let nd = g.narsese(&mut rng, d__);
+        let mut nd = g.narsese(&mut rng, d__);
+        if i % 2 == 0 {
+            let planted = super::c10::plant(nd.term(), &mut rng);
+            *nd.term_mut() = planted;
+        }
         ctx.report.nontrivial(&format!("{}|{}", f.name(), nd.canon()));
         if i % 97 == 0 {
             let toks = tokens(f, &nd, &mut Sugar::default());
@@ -306,8 +342,9 @@ pub fn run(ctx: &mut Ctx) {
                 ctx.report.bump("harness.token-renderer-agrees-with-formatter");
             }
         }
-        check(ctx, f, &nd, "none", 0);
-        check(ctx, f, &nd, "one-everywhere", 0);
+        let s01 = rng.below(2) as u64;
+        check(ctx, f, &nd, "none", s01);
+        check(ctx, f, &nd, "one-everywhere", s01);
         for _ in 0..3 {
             let s = rng.next_u64();
             check(ctx, f, &nd, "random", s);
